@@ -11,6 +11,7 @@ byte-level specification the driver prints alongside.
 import ast
 import builtins
 import errno
+import fnmatch
 import itertools
 import os
 import shutil
@@ -18,7 +19,7 @@ import tempfile
 
 from harness.common import extract
 from harness.common.extract import NotRecognised
-from harness.common.fakeproc import FakeProc
+from harness.common.fakeproc import FakeProc, reset_psutil_state
 from harness.common.shrink import ddmin
 
 PROP = "C12"
@@ -240,7 +241,10 @@ def world_json(w):
     return {"dir": w["dir"], "zombie": w["zombie"], "comm": hx(w["comm"]),
             "cmdline": f(w["cmdline"]), "environ": f(w["environ"]),
             "exe": l(w["exe"]), "cwd": l(w["cwd"]),
-            "fs": [[hx(p), k] for p, k in sorted(w["fs"].items())]}
+            "fs": [[hx(p), k] for p, k in sorted(w["fs"].items())],
+            "uid": w.get("uid", 0), "tty": w.get("tty", 0),
+            "users": [[u, hx(n)] for u, n in sorted(w.get("users", {}).items())],
+            "ttys": [[t, hx(n)] for t, n in sorted(w.get("ttys", {}).items())]}
 
 
 def world_from_json(j):
@@ -251,22 +255,134 @@ def world_from_json(j):
         return ("target", bytes.fromhex(x["target"])) if "target" in x else ("err", x["err"])
     return {"dir": j["dir"], "zombie": j["zombie"], "comm": bytes.fromhex(j["comm"]),
             "cmdline": f(j["cmdline"]), "environ": f(j["environ"]), "exe": l(j["exe"]), "cwd": l(j["cwd"]),
-            "fs": {bytes.fromhex(p): k for p, k in j["fs"]}}
+            "fs": {bytes.fromhex(p): k for p, k in j["fs"]},
+            "uid": j.get("uid", 0), "tty": j.get("tty", 0),
+            "users": {u: bytes.fromhex(n) for u, n in j.get("users", [])},
+            "ttys": {t: bytes.fromhex(n) for t, n in j.get("ttys", [])}}
+
+
+def step_json(s):
+    o = {"call": s["call"], "w": world_json(s["w"])}
+    if s.get("mode", "plain") != "plain":
+        o["mode"] = s["mode"]
+    if "w0" in s:
+        o["w0"] = world_json(s["w0"])
+        o["warm"] = list(s["warm"])
+    if "extra" in s:
+        o["extra"] = list(s["extra"])
+    return o
+
+
+def step_from_json(j):
+    s = {"call": j["call"], "w": world_from_json(j["w"])}
+    if "mode" in j:
+        s["mode"] = j["mode"]
+    if "w0" in j:
+        s["w0"] = world_from_json(j["w0"])
+        s["warm"] = list(j.get("warm", []))
+    if "extra" in j:
+        s["extra"] = list(j["extra"])
+    return s
 
 
 def case_json(case):
-    return {"family": case.get("family", "?"),
-            "steps": [{"call": s["call"], "w": world_json(s["w"])} for s in case["steps"]]}
+    o = {"family": case.get("family", "?"), "steps": [step_json(s) for s in case["steps"]]}
+    if case.get("obj", "ctor") != "ctor":
+        o["obj"] = case["obj"]
+    return o
 
 
 def case_from_json(j):
-    return {"family": j.get("family", "?"),
-            "steps": [{"call": s["call"], "w": world_from_json(s["w"])} for s in j["steps"]]}
+    c = {"family": j.get("family", "?"), "steps": [step_from_json(s) for s in j["steps"]]}
+    if "obj" in j:
+        c["obj"] = j["obj"]
+    return c
+
+
+USERS = {0: b"root", 1000: b"alice", 1001: "zo\u00e9".encode(), 65534: b"nobody"}
+TTYS = {34816: b"/dev/pts/0", 34817: b"/dev/pts/1", 1025: b"/dev/tty1", 1088: b"/dev/ttyS0"}
 
 
 def default_world():
     return {"dir": True, "zombie": False, "comm": b"prog", "cmdline": ("data", b"prog\0"),
-            "environ": ("data", b""), "exe": ("err", "ENOENT"), "cwd": ("err", "ENOENT"), "fs": {}}
+            "environ": ("data", b""), "exe": ("err", "ENOENT"), "cwd": ("err", "ENOENT"), "fs": {},
+            "uid": 1000, "tty": 0, "users": USERS, "ttys": TTYS}
+
+
+# ------------------------------------------------------------------------------ call modes
+#
+# Every step is executed in one of these MODES; none of them may change an answer (C16), so the model side
+# stays the same function of the file contents. The only subtlety is a oneshot() block whose cached sources
+# (stat: name + tty_nr; status: uids) were read in an EARLIER world `w0` of the same block: the property then
+# promises the answer for "cached parts as first read, everything else as it is now" (Lean: `Block.view`,
+# theorem C12_oneshot_same_answers); the harness tells the driver what the block has cached.
+
+MODES = ["plain", "oneshot", "oneshot_nested", "warm", "after_block", "as_dict", "as_dict_many",
+         "oneshot_as_dict", "again", "reiter"]
+OBJS = ["ctor", "iter", "iter_info"]
+DICT_MODES = ("as_dict", "as_dict_many", "oneshot_as_dict")
+CACHED_CALLS = ("name", "username", "terminal")
+# front-end methods that read (and, in a block, cache) /proc/<pid>/stat resp. /proc/<pid>/status.
+# ppid() / is_running() first check for PID reuse and remember a vanished /proc/<pid> for good (`_gone`, C01/C02's
+# subject): the generators only run them in worlds where /proc/<pid> exists.
+NEEDS_DIR = ("ppid", "is_running")
+STAT_READERS = ("status", "cpu_times", "terminal", "name", "cpu_num", "ppid")
+STATUS_READERS = ("uids", "username", "gids", "num_threads", "num_ctx_switches")
+WARM_EXTRAS = ("cmdline", "cwd", "create_time", "is_running", "nice")
+# extras of as_dict(attrs=[call, …]): methods that cannot raise NoSuchProcess while /proc/<pid> exists (an
+# exception other than AccessDenied/ZombieProcess of ANY attribute aborts as_dict, in an order we do not control)
+DICT_EXTRAS = ("status", "ppid", "uids", "gids", "username", "terminal", "cwd", "create_time", "pid", "num_threads")
+
+
+def block_of(s):
+    """what the oneshot() block of a `warm` step has cached when the call is made (driver JSON), or None"""
+    if s.get("mode") != "warm" or not s["w0"]["dir"]:
+        return None
+    w0 = s["w0"]
+    b = {"stat": None, "uid": None}
+    if any(c in STAT_READERS for c in s["warm"]):
+        b["stat"] = [hx(w0["comm"]), w0["tty"]]
+    if any(c in STATUS_READERS for c in s["warm"]):
+        b["uid"] = w0["uid"]
+    if b["stat"] is None and b["uid"] is None:
+        return None
+    return b
+
+
+def atoms_of(case):
+    """the single calls a case consists of: [(step index, call, world, block, via)]; `via` says how the result
+    reaches the caller (direct / through as_dict / through process_iter(attrs=…).info)"""
+    out = []
+    steps = case["steps"]
+    if case.get("obj") == "iter_info" and steps:
+        s0 = steps[0]
+        out.append((-1, s0["call"], s0["w"] if s0["w"]["dir"] else default_world(), None, "info"))
+    for i, s in enumerate(steps):
+        mode = s.get("mode", "plain")
+        via = "dict" if mode in DICT_MODES else "direct"
+        out.append((i, s["call"], s["w"], block_of(s), via))
+        if mode == "again":
+            out.append((i, s["call"], s["w"], None, via))
+    return out
+
+
+def through(via, o):
+    """what the caller sees of outcome `o` (of model or spec) in this mode"""
+    if o is None or via == "direct":
+        return o
+    if o.get("kind") == "exc" and o.get("exc") in ("AccessDenied", "ZombieProcess"):
+        return {"kind": "ad_value"}
+    if via == "info" and o.get("kind") == "exc" and o.get("exc") == "NoSuchProcess":
+        return {"kind": "not-yielded"}
+    return o
+
+
+class _Sentinel:
+    def __repr__(self):
+        return "<ad_value>"
+
+
+SENT = _Sentinel()
 
 
 # ------------------------------------------------------------------------------ implementation side
@@ -294,6 +410,31 @@ class Impl:
         self.link_over = {}
         self.real = (os.stat, os.access, os.readlink)
         real_stat, real_access, real_readlink = self.real
+        self.users = {}
+        self.ttys = {}
+        self.tty_paths = {}
+        self.proc = None
+        impl = self
+
+        class _Pw:
+            def __init__(self, name):
+                self.pw_name = name
+
+        class _PwdShim:
+            @staticmethod
+            def getpwuid(uid):
+                if uid not in impl.users:
+                    raise KeyError("getpwuid(): uid not found: %d" % uid)
+                return _Pw(os.fsdecode(impl.users[uid]))
+
+        class _GlobShim:
+            @staticmethod
+            def glob(pat):
+                return [p for p in sorted(os.fsdecode(x) for x in impl.tty_paths) if fnmatch.fnmatchcase(p, pat)]
+
+        self.saved_mods = (self.ps.pwd, self.ps._psposix.glob)
+        self.ps.pwd = _PwdShim
+        self.ps._psposix.glob = _GlobShim
 
         def key(path):
             if isinstance(path, (str, bytes)):
@@ -303,6 +444,8 @@ class Impl:
         def _stat(path, *a, **kw):
             if self.active:
                 bp = key(path)
+                if bp is not None and bp in self.tty_paths:
+                    return os.stat_result((0o020620, 1, 1, 1, 0, 5, 0, 0, 0, 0), {"st_rdev": self.tty_paths[bp]})
                 if bp is not None and b"\0" not in bp and not bp.startswith(self.root_b) \
                         and not bp.startswith(self.tree_b):
                     ent = self.fs.get(bp, "absent")
@@ -345,6 +488,7 @@ class Impl:
 
     def close(self):
         os.stat, os.access, os.readlink = self.real
+        self.ps.pwd, self.ps._psposix.glob = self.saved_mods
         try:
             del self.ps._common.open
         except AttributeError:
@@ -354,8 +498,17 @@ class Impl:
 
     # ---- world → files
     def _stat_line(self, w):
-        return b"%d (%s) %s 1 1 1 0 -1 4194304 0 0 0 0 5 6 0 0 20 0 1 0 1234 1000 10 18446744073709551615 " \
-               b"0 0 0 0 0 0 0 0 0 0 0 0 17 0 0 0 0 0 0 0 0 0 0 0 0 0 0\n" % (PID, w["comm"], b"Z" if w["zombie"] else b"S")
+        return b"%d (%s) %s 1 1 1 %d -1 4194304 0 0 0 0 5 6 0 0 20 0 1 0 1234 1000 10 18446744073709551615 " \
+               b"0 0 0 0 0 0 0 0 0 0 0 0 17 0 0 0 0 0 0 0 0 0 0 0 0 0 0\n" \
+               % (PID, w["comm"], b"Z" if w["zombie"] else b"S", w.get("tty", 0))
+
+    def _status_file(self, w):
+        uid = w.get("uid", 0)
+        return (b"Name:\t%s\nUmask:\t0022\nState:\t%s\nTgid:\t%d\nPid:\t%d\nPPid:\t1\n"
+                b"Uid:\t%d\t%d\t%d\t%d\nGid:\t%d\t%d\t%d\t%d\nThreads:\t1\n"
+                b"voluntary_ctxt_switches:\t3\nnonvoluntary_ctxt_switches:\t4\n"
+                % (w["comm"][:15].replace(b"\n", b"\\n"), b"Z (zombie)" if w["zombie"] else b"S (sleeping)", PID, PID,
+                   uid, uid + 1, uid + 2, uid + 3, 100, 101, 102, 103))
 
     def materialise(self, w):
         fp = self.fp
@@ -364,9 +517,13 @@ class Impl:
         self.fs = dict(w["fs"])
         self.file_err = {}
         self.link_over = {}
+        self.users = w.get("users", {})
+        self.ttys = w.get("ttys", {})
+        self.tty_paths = {p: nr for nr, p in self.ttys.items()}
         if not w["dir"]:
             return
         fp.write(d + "/stat", self._stat_line(w))
+        fp.write(d + "/status", self._status_file(w))
         for nm in ("cmdline", "environ"):
             kind, v = w[nm]
             p = os.fsencode(fp.path(d + "/" + nm))
@@ -392,20 +549,17 @@ class Impl:
         self.active = False
         return self.ps.Process(PID)
 
-    def call(self, proc, w, call):
-        self.materialise(w)
-        self.active = True
-        try:
-            r = getattr(proc, call)()
-        except BaseException as e:  # noqa: BLE001 — every exception is an observable
-            if isinstance(e, (KeyboardInterrupt, SystemExit)):
-                raise
-            out = {"kind": "exc", "exc": type(e).__name__}
-            if isinstance(e, self.ps.Error) and getattr(e, "pid", PID) != PID:
-                out["wrong_pid"] = getattr(e, "pid", None)
-            return out
-        finally:
-            self.active = False
+    def _pick(self, **kw):
+        """the Process object psutil.process_iter() yields for PID (None if it is not yielded)"""
+        got = None
+        for p in self.ps.process_iter(**kw):
+            if p.pid == PID:
+                got = p
+        return got
+
+    def render(self, call, r):
+        if r is SENT:
+            return {"kind": "ad_value"}
         try:
             if call == "cmdline":
                 if not isinstance(r, list) or not all(isinstance(x, str) for x in r):
@@ -415,15 +569,144 @@ class Impl:
                 if not isinstance(r, dict):
                     return {"kind": "wrong-type", "repr": repr(r)[:200]}
                 return {"kind": "ok", "dict": sorted([hx(os.fsencode(k)), hx(os.fsencode(v))] for k, v in r.items())}
+            if call == "terminal":
+                if r is None:
+                    return {"kind": "ok", "opt": None}
+                if not isinstance(r, str):
+                    return {"kind": "wrong-type", "repr": repr(r)[:200]}
+                return {"kind": "ok", "opt": hx(os.fsencode(r))}
             if not isinstance(r, str):
                 return {"kind": "wrong-type", "repr": repr(r)[:200]}
             return {"kind": "ok", "str": hx(os.fsencode(r))}
         except Exception as e:  # un-encodable result
             return {"kind": "unencodable", "exc": type(e).__name__}
 
+    def guarded(self, call, fn):
+        """run `fn` with the OS answering from the current world; every exception is an observable"""
+        self.active = True
+        try:
+            r = fn()
+        except BaseException as e:  # noqa: BLE001
+            if isinstance(e, (KeyboardInterrupt, SystemExit)):
+                raise
+            out = {"kind": "exc", "exc": type(e).__name__}
+            if isinstance(e, self.ps.Error) and getattr(e, "pid", PID) != PID:
+                out["wrong_pid"] = getattr(e, "pid", None)
+            return out
+        finally:
+            self.active = False
+        return self.render(call, r)
+
+    def get_object(self, case):
+        """(Process object or None, outcomes already produced)"""
+        obj = case.get("obj", "ctor")
+        if obj == "ctor" or not case["steps"]:
+            return self.new_process(), []
+        reset_psutil_state(self.ps)
+        if obj == "iter":
+            self.materialise(default_world())
+            self.active = False
+            return self._pick(), []
+        s0 = case["steps"][0]
+        call = s0["call"]
+        self.materialise(s0["w"] if s0["w"]["dir"] else default_world())
+        box = {}
+
+        def it():
+            box["p"] = self._pick(attrs=[call], ad_value=SENT)
+            if box["p"] is None:
+                return None
+            return box["p"].info[call]
+        o = self.guarded(call, it)
+        if box.get("p") is None and o.get("kind") != "exc":
+            o = {"kind": "not-yielded"}
+        return box.get("p"), [o]
+
+    def call_step(self, s):
+        """outcomes of one step (two for mode `again`) on self.proc"""
+        w, call, mode = s["w"], s["call"], s.get("mode", "plain")
+        proc = self.proc
+
+        def plain():
+            return getattr(proc, call)()
+
+        def via_dict(attrs):
+            return proc.as_dict(attrs=attrs, ad_value=SENT)[call]
+
+        def warmup():
+            self.materialise(s["w0"])
+            for c in s["warm"]:
+                try:
+                    getattr(proc, c)()
+                except Exception:  # noqa: BLE001 — only what the block has cached afterwards matters
+                    pass
+
+        if mode == "again":
+            self.materialise(w)
+            return [self.guarded(call, plain), self.guarded(call, plain)]
+        if mode == "reiter" and w["dir"]:
+            self.materialise(w)
+            box = {}
+
+            def again_from_iter():
+                p2 = self._pick()
+                if p2 is not None:
+                    box["p"] = p2
+                return getattr(p2 if p2 is not None else proc, call)()
+            o = self.guarded(call, again_from_iter)
+            if "p" in box:
+                self.proc = box["p"]
+            return [o]
+        if mode == "oneshot":
+            def fn():
+                self.materialise(w)
+                with proc.oneshot():
+                    return plain()
+        elif mode == "oneshot_nested":
+            def fn():
+                self.materialise(w)
+                with proc.oneshot():
+                    with proc.oneshot():
+                        return plain()
+        elif mode == "warm":
+            def fn():
+                with proc.oneshot():
+                    warmup()
+                    self.materialise(w)
+                    return plain()
+        elif mode == "after_block":
+            def fn():
+                with proc.oneshot():
+                    warmup()
+                self.materialise(w)
+                return plain()
+        elif mode == "as_dict":
+            def fn():
+                self.materialise(w)
+                return via_dict([call])
+        elif mode == "as_dict_many":
+            def fn():
+                self.materialise(w)
+                return via_dict([call] + list(s.get("extra", [])))
+        elif mode == "oneshot_as_dict":
+            def fn():
+                self.materialise(w)
+                with proc.oneshot():
+                    return via_dict([call])
+        else:
+            def fn():
+                self.materialise(w)
+                return plain()
+        return [self.guarded(call, fn)]
+
     def run_case(self, case):
-        proc = self.new_process()
-        return [self.call(proc, s["w"], s["call"]) for s in case["steps"]]
+        """outcomes aligned with atoms_of(case) (shorter when process_iter did not yield the object)"""
+        self.proc, outs = self.get_object(case)
+        if self.proc is None:
+            return outs
+        for s in case["steps"]:
+            outs.extend(self.call_step(s))
+        return outs
 
 
 def canon(o):
@@ -435,28 +718,35 @@ def canon(o):
 
 
 def run_cases(ctx, impl, cases, drv=None):
-    """[(case, [(impl, model, spec) per step])], number of driver lines"""
+    """[(case, [(impl, model, spec, step index) per single call])], number of driver lines"""
     lines = []
+    all_atoms = []
     for c in cases:
         lines.append({"op": "reset"})
-        for s in c["steps"]:
-            lines.append({"op": "step", "call": s["call"], "w": world_json(s["w"])})
+        ats = atoms_of(c)
+        all_atoms.append(ats)
+        for (_, call, w, block, _) in ats:
+            ln = {"op": "step", "call": call, "w": world_json(w)}
+            if block is not None:
+                ln["block"] = block
+            lines.append(ln)
     if drv is None:
         outs = ctx.driver().batch(lines)
     else:
         outs = [drv.ask(l) for l in lines]
     res = []
     i = 0
-    for c in cases:
+    for c, ats in zip(cases, all_atoms):
         i += 1
         impl_outs = impl.run_case(c)
         rows = []
-        for s, io in zip(c["steps"], impl_outs):
+        for k, (si, _, _, _, via) in enumerate(ats):
             m = outs[i]
             i += 1
             if "bad" in m:
                 raise RuntimeError("driver rejected a step of %r: %s" % (case_json(c), m))
-            rows.append((canon(io), canon(m["model"]), canon(m["spec"])))
+            if k < len(impl_outs):
+                rows.append((canon(impl_outs[k]), canon(through(via, m["model"])), canon(through(via, m["spec"])), si))
         res.append((c, rows))
     return res, len(lines)
 
@@ -615,7 +905,85 @@ def gen_name_pair(rng):
 
 
 FAMILIES = ["argv", "title", "mixed", "empty", "environ", "link", "exe_fallback", "exe_cache", "name",
-            "tree", "anything"]
+            "tree", "anything", "exe_denied", "name_err", "zombie_id", "oneshot_reuse"]
+
+UIDS = [0, 1000, 1001, 65534, 12345, 4294967294]
+TTY_NRS = [0, 34816, 34817, 1025, 1088, 99999]
+
+
+def gen_identity(rng, w):
+    w["uid"] = rng.choice(UIDS)
+    w["tty"] = rng.choice(TTY_NRS)
+
+
+def gen_w0(rng, w, call):
+    """the world in which the warm-up calls of a `warm` / `after_block` step run (the step's own world is
+    what the call under test sees afterwards)"""
+    w0 = dict(w)
+    if rng.random() < 0.25:
+        return w0                                      # unchanged world: a warm cache, the same answers
+    if rng.random() < 0.7:
+        w0["comm"] = gen_name_pair(rng)[0]
+    w0["uid"] = rng.choice(UIDS)
+    w0["tty"] = rng.choice(TTY_NRS)
+    if rng.random() < 0.3:
+        w0["zombie"] = not w["zombie"]
+    if rng.random() < 0.3:
+        w0["cmdline"] = ("data", gen_cmdline_bytes(rng, rng.choice(["argv", "title", "empty"])))
+    if rng.random() < 0.2:
+        w0["exe"] = ("target", b"/usr/bin/earlier")
+        w0["cwd"] = ("target", b"/earlier")
+    if rng.random() < 0.2:
+        w0["environ"] = ("data", b"EARLIER=1\0")
+    r = rng.random()
+    if r < 0.08:
+        w0["dir"] = False                              # the warm-up fails: nothing is cached
+    elif r < 0.16 and call not in CACHED_CALLS and w["dir"]:
+        w0["dir"] = True
+    return w0
+
+
+def gen_warm(rng):
+    warm = []
+    r = rng.random()
+    if r < 0.8:
+        warm.append(rng.choice(STAT_READERS))
+    if r > 0.2 or rng.random() < 0.5:
+        warm.append(rng.choice(STATUS_READERS))
+    for _ in range(rng.randrange(0, 3)):
+        warm.append(rng.choice(WARM_EXTRAS + STAT_READERS + STATUS_READERS))
+    rng.shuffle(warm)
+    return warm
+
+
+def set_mode(rng, case, s, mode):
+    if mode == "reiter" and case.get("obj", "ctor") == "ctor":
+        mode = "plain"
+    if mode in ("warm", "after_block"):
+        s["w0"] = gen_w0(rng, s["w"], s["call"])
+        if mode == "warm" and s["call"] in CACHED_CALLS and s["w0"]["dir"] and not s["w"]["dir"]:
+            s["w0"]["dir"] = False                     # (a cached source outliving /proc/<pid> is C16's subject)
+        s["warm"] = [c for c in gen_warm(rng) if s["w0"]["dir"] or c not in NEEDS_DIR]
+    if mode == "as_dict_many" and not s["w"]["dir"]:
+        mode = "as_dict"
+    if mode == "as_dict_many":
+        s["extra"] = rng.sample(DICT_EXTRAS, rng.randrange(1, 5))
+        s["extra"] = [x for x in s["extra"] if x != s["call"]]
+    if mode != "plain":
+        s["mode"] = mode
+
+
+def decorate(rng, case):
+    """choose how the object is obtained and the mode of every step"""
+    case["obj"] = rng.choice(["ctor", "ctor", "iter", "iter", "iter_info"])
+    steps = []
+    for s in case["steps"]:
+        s = dict(s)
+        mode = rng.choice(MODES) if rng.random() < 0.75 else "plain"
+        set_mode(rng, case, s, mode)
+        steps.append(s)
+    case["steps"] = steps
+    return case
 
 
 def gen_case(rng, fam, impl=None):
@@ -717,8 +1085,62 @@ def gen_case(rng, fam, impl=None):
         w["cmdline"] = ("data", render_argv([a0, b"-x"]))
         w["fs"] = {p: k for p, k in kinds.items()}     # what the real tree says; everything else there is absent
         steps = [{"call": "cwd", "w": w}, {"call": "exe", "w": w}, {"call": "exe", "w": w}]
+    elif fam == "exe_denied":
+        # every documented branch of the front-end exe(): link denied / withheld / readable x what cmdline() says
+        for _ in range(rng.randrange(1, 4)):
+            w = default_world()
+            w["exe"] = rng.choice([("err", "EACCES"), ("err", "EACCES"), ("err", "ENOENT"), ("err", "ESRCH"),
+                                   ("target", b""), ("target", b"/usr/bin/real")])
+            a0 = rng.choice([b"/usr/bin/prog", b"/opt/my app/run", b"prog", b"", b"/", b"/bin/" + E_ACUTE])
+            w["cmdline"] = rng.choice([("data", render_argv([a0, b"-x"])), ("data", render_argv([a0, b"-x"])),
+                                       ("data", a0 + b" --title"), ("data", b""),
+                                       ("err", "EACCES"), ("err", "ESRCH"), ("err", "ENOENT")])
+            for p in {a0, a0.split(b" ")[0]}:
+                gen_fs_for(rng, p, w["fs"])
+            w["zombie"] = rng.random() < 0.2
+            if rng.random() < 0.04:
+                w["dir"] = False
+            steps.append({"call": "exe", "w": w})
+    elif fam == "name_err":
+        # name() of every length x every way cmdline() can fail
+        comm, a0 = gen_name_pair(rng)
+        w["comm"] = comm
+        w["cmdline"] = rng.choice([("err", "EACCES"), ("err", "ESRCH"), ("err", "ENOENT"), ("data", b""),
+                                   ("data", render_argv([a0]))])
+        w["zombie"] = rng.random() < 0.5
+        if rng.random() < 0.05:
+            w["dir"] = False
+        steps = [{"call": "name", "w": w}, {"call": "cmdline", "w": w}]
+    elif fam == "zombie_id":
+        # who a zombie is and what it no longer has: username / terminal / name answer, cwd / exe / cmdline do not
+        w["zombie"] = rng.random() < 0.8
+        w["comm"] = gen_name_pair(rng)[0]
+        gen_identity(rng, w)
+        if w["zombie"]:
+            w["cmdline"] = rng.choice([("data", b""), ("data", b""), ("err", "ENOENT"), ("err", "ESRCH"), ("err", "EACCES")])
+            w["exe"] = rng.choice([("err", "ENOENT"), ("err", "ESRCH"), ("err", "EACCES"), ("target", b"/usr/bin/was")])
+            w["cwd"] = rng.choice([("err", "ENOENT"), ("err", "ESRCH"), ("err", "EACCES"), ("target", b"/was")])
+            w["environ"] = rng.choice([("data", b""), ("err", "EACCES"), ("err", "ESRCH")])
+        else:
+            w["exe"] = gen_link(rng, w["fs"])
+            w["cwd"] = gen_link(rng, w["fs"])
+        if rng.random() < 0.05:
+            w["dir"] = False
+        calls = ["username", "terminal", "cwd", "name", "exe", "cmdline", "environ"]
+        rng.shuffle(calls)
+        steps = [{"call": c, "w": w} for c in calls[:rng.randrange(2, 8)]]
+    elif fam == "oneshot_reuse":
+        # the block-cached calls, several times on one object, the world changing between the steps
+        for _ in range(rng.randrange(2, 5)):
+            w = default_world()
+            w["comm"], a0 = gen_name_pair(rng)
+            w["cmdline"] = ("data", render_argv([a0]))
+            gen_identity(rng, w)
+            w["zombie"] = rng.random() < 0.2
+            steps.append({"call": rng.choice(["name", "username", "terminal", "name"]), "w": w})
     else:  # anything: every component random, every call
         w["comm"] = gen_name_pair(rng)[0]
+        gen_identity(rng, w)
         w["cmdline"] = ("data", gen_cmdline_bytes(rng, rng.choice(["argv", "title", "mixed", "empty"])))
         w["environ"] = ("data", gen_env_block(rng))
         w["exe"] = gen_link(rng, w["fs"])
@@ -727,10 +1149,93 @@ def gen_case(rng, fam, impl=None):
         w["dir"] = rng.random() >= 0.05
         a0 = w["cmdline"][1].split(b"\0")[0].split(b" ")[0]
         gen_fs_for(rng, a0, w["fs"])
-        calls = ["cmdline", "environ", "exe", "cwd", "name", "exe"]
+        calls = ["cmdline", "environ", "exe", "cwd", "name", "exe", "username", "terminal"]
         rng.shuffle(calls)
         steps = [{"call": c, "w": w} for c in calls]
     return {"family": fam, "steps": steps}
+
+
+def exhaustive_exe_cases():
+    """every (state of the exe link) x (state of cmdline) x (zombie?) combination, exe() called twice"""
+    cases = []
+    links = {"enoent": ("err", "ENOENT"), "esrch": ("err", "ESRCH"), "eacces": ("err", "EACCES"),
+             "empty": ("target", b""), "path": ("target", b"/usr/bin/real"),
+             "deleted": ("target", b"/usr/bin/real (deleted)")}
+    a_x, a_f, a_d, a_n = b"/usr/bin/prog", b"/usr/bin/data", b"/usr/bin", b"/usr/bin/nope"
+    fs = {a_x: "filex", a_f: "file", a_d: "dir"}
+    cmds = {"abs-exec": ("data", render_argv([a_x, b"-x"])), "abs-file": ("data", render_argv([a_f])),
+            "abs-dir": ("data", render_argv([a_d])), "abs-absent": ("data", render_argv([a_n])),
+            "relative": ("data", render_argv([b"prog"])), "title-exec": ("data", a_x + b" --title"),
+            "empty": ("data", b""), "eacces": ("err", "EACCES"), "esrch": ("err", "ESRCH"),
+            "enoent": ("err", "ENOENT")}
+    for ln, l in links.items():
+        for cn, c in cmds.items():
+            for z in (False, True):
+                w = default_world()
+                w.update(exe=l, cmdline=c, zombie=z, fs=dict(fs))
+                w2 = default_world()
+                w2.update(exe=("target", b"/usr/bin/later"), zombie=z)
+                cases.append({"family": "exh-exe:%s/%s/%s" % (ln, cn, "zombie" if z else "live"),
+                              "steps": [{"call": "exe", "w": w}, {"call": "exe", "w": w}, {"call": "exe", "w": w2}]})
+    return cases
+
+
+def mode_worlds():
+    """a few worlds that make every call take a different branch"""
+    out = {}
+    w = default_world()
+    w.update(comm=b"gnome-keyring-d", cmdline=("data", render_argv([b"/usr/bin/gnome-keyring-daemon", b"--start"])),
+             environ=("data", b"A=1\0B=2\0A=3\0"), exe=("target", b"/usr/bin/gnome-keyring-daemon"),
+             cwd=("target", b"/home/u (deleted)"), uid=1001, tty=34816)
+    out["live"] = w
+    w = default_world()
+    w.update(comm=b"fifteen-bytes-zz", zombie=True, cmdline=("data", b""), environ=("err", "EACCES"),
+             exe=("err", "ENOENT"), cwd=("err", "ENOENT"), uid=12345, tty=1025)
+    out["zombie"] = w
+    w = default_world()
+    w.update(comm=b"other-users-proc", cmdline=("err", "EACCES"), environ=("err", "EACCES"),
+             exe=("err", "EACCES"), cwd=("err", "EACCES"), uid=0, tty=99999)
+    out["denied"] = w
+    w = default_world()
+    w.update(comm=b"kernel-withheld", cmdline=("data", render_argv([b"/usr/bin/prog"])), fs={b"/usr/bin/prog": "filex"},
+             exe=("err", "ENOENT"), cwd=("err", "ESRCH"), uid=65534, tty=0)
+    out["guess"] = w
+    w = default_world()
+    w.update(comm=b"denied-but-guess", cmdline=("data", b"/usr/bin/prog --title"), fs={b"/usr/bin/prog": "filex"},
+             exe=("err", "EACCES"), cwd=("target", b"/"), uid=1000, tty=34817)
+    out["denied-guess"] = w
+    w = default_world()
+    w.update(dir=False)
+    out["gone"] = w
+    return out
+
+
+def exhaustive_mode_cases():
+    """(6 worlds) x (7 calls) x (every mode) x (every way of obtaining the object); in the `warm` and
+    `after_block` modes the warm-up runs in a DIFFERENT world (other name, uid, tty, cmdline, links)"""
+    cases = []
+    worlds = mode_worlds()
+    other = default_world()
+    other.update(comm=b"an-earlier-name-of-16", cmdline=("data", render_argv([b"/earlier"])), uid=4294967294, tty=1088,
+                 exe=("target", b"/usr/bin/earlier"), cwd=("target", b"/earlier"), environ=("data", b"E=0\0"))
+    for wn, w in worlds.items():
+        for call in ("cmdline", "environ", "exe", "cwd", "name", "username", "terminal"):
+            for obj in OBJS:
+                for mode in MODES:
+                    if (mode == "reiter" and obj == "ctor") or (mode == "as_dict_many" and not w["dir"]):
+                        continue
+                    s = {"call": call, "w": w}
+                    if mode in ("warm", "after_block"):
+                        s["w0"] = dict(other)
+                        if not w["dir"] and call in CACHED_CALLS and mode == "warm":
+                            s["w0"] = dict(w)
+                        s["warm"] = ["status", "uids", "ppid", "name"]
+                    if mode == "as_dict_many":
+                        s["extra"] = [x for x in ("status", "uids", "terminal", "ppid", "username") if x != call]
+                    if mode != "plain":
+                        s["mode"] = mode
+                    cases.append({"family": "exh-mode:%s/%s/%s/%s" % (wn, call, obj, mode), "obj": obj, "steps": [s]})
+    return cases
 
 
 def exhaustive_name_cases():
@@ -811,6 +1316,25 @@ def corpus_cases():
     wb = default_world()
     wb.update(cmdline=("data", big), environ=("data", (b"K=" + E_ACUTE * 16383 + b"\r\n\0") * 2 + b"Z=1\0"))
     out.append({"family": "corpus", "steps": [{"call": "cmdline", "w": wb}, {"call": "environ", "w": wb}]})
+    # a zombie (or a process whose cmdline is denied / withheld) keeps the kernel's name, 15 bytes included
+    z15 = b"fifteen-bytes-z"
+    for cl in (("data", b""), ("err", "ENOENT"), ("err", "ESRCH"), ("err", "EACCES")):
+        out.append(one("name", comm=z15, zombie=True, cmdline=cl))
+    out.append(one("name", comm=z15, cmdline=("err", "EACCES")))
+    out.append(one("name", comm=z15, cmdline=("err", "ESRCH")))          # died under our feet: NoSuchProcess
+    zc = one("name", comm=z15, zombie=True, cmdline=("data", b""))
+    zc["steps"][0]["mode"] = "as_dict"
+    out.append(zc)
+    # exe(): link denied -> guess / re-raise; withheld while cmdline() is denied -> ''
+    fsx = {b"/usr/bin/p": "filex"}
+    out.append(one("exe", exe=("err", "EACCES"), cmdline=("data", b"/usr/bin/p\0"), fs=fsx))
+    out.append(one("exe", exe=("err", "EACCES"), cmdline=("data", b"p\0"), fs=fsx))
+    out.append(one("exe", exe=("err", "EACCES"), cmdline=("err", "EACCES")))
+    out.append(one("exe", exe=("err", "ENOENT"), cmdline=("err", "EACCES")))
+    # a zombie: no cwd, but an owner and a terminal
+    for c in ("cwd", "exe", "username", "terminal"):
+        out.append(one(c, zombie=True, cmdline=("data", b""), uid=1001, tty=34816))
+    out.append(one("username", uid=12345))
     return out
 
 
@@ -884,6 +1408,16 @@ def features(case):
                     f.add("link:plain")
         if c == "exe":
             f.add("exe")
+        if c == "username":
+            f.add("username:" + ("known" if w.get("uid", 0) in w.get("users", {}) else "numeric"))
+        if c == "terminal":
+            f.add("terminal:" + ("known" if w.get("tty", 0) in w.get("ttys", {}) else "none"))
+        if s.get("mode", "plain") != "plain":
+            f.add("mode")
+        if "w0" in s and world_json(s["w0"]) != world_json(w):
+            f.add("warm:world-changed")
+        if block_of(s) is not None:
+            f.add("warm:block-holds-" + "+".join(k for k, v in sorted(block_of(s).items()) if v is not None))
         if c == "name":
             n = len(w["comm"])
             f.add("name:len" + ("<15" if n < 15 else "=15" if n == 15 else ">15"))
@@ -910,16 +1444,20 @@ def in_region(ctx, case, step_index):
 def compare(ctx, case, rows, res):
     """record the first disagreement of an executed case; True if any"""
     cj = case_json(case)
-    for i, (im, mo, sp) in enumerate(rows):
-        cut = {"family": cj["family"], "steps": cj["steps"][:i + 1]}
+    for (im, mo, sp, si) in rows:
+        i = max(si, 0)
+        cut = dict(cj, steps=cj["steps"][:i + 1])
+        st = case["steps"][i]
+        how = "process_iter(attrs=[…]).info" if si < 0 else "mode %s" % st.get("mode", "plain")
+        how += ", object from %s" % case.get("obj", "ctor")
         if sp is not None and im != sp:
             res.disagree("spec", cut, im, mo, sp,
-                         note="step %d (%s): implementation differs from the byte-level specification" % (i, case["steps"][i]["call"]),
+                         note="step %d (%s, %s): implementation differs from the byte-level specification" % (i, st["call"], how),
                          finding=in_region(ctx, case, i))
             return True
         if im != mo:
             res.disagree("model", cut, im, mo, sp,
-                         note="step %d (%s): implementation differs from the Lean model" % (i, case["steps"][i]["call"]))
+                         note="step %d (%s, %s): implementation differs from the Lean model" % (i, st["call"], how))
             return True
     return False
 
@@ -927,17 +1465,28 @@ def compare(ctx, case, rows, res):
 def correspond(ctx, res):
     impl = Impl(ctx)
     try:
-        res.rule = ("cases = one Process object + a list of (world, call) steps; 11 clause-directed families "
-                    "(PRNG from VERIF_SEED), a corpus of clause witnesses, and an exhaustive sweep of the "
-                    "name() rule around the 15-byte boundary; non-trivial = at least one step whose outcome is not "
-                    "the default world's; distinct = distinct step lists")
+        res.rule = ("cases = one Process object (from the constructor, from process_iter(), or from "
+                    "process_iter(attrs=…)) + a list of (world, call, MODE) steps — mode = plain / oneshot / nested / "
+                    "oneshot with a warm cache filled in an earlier world / after a block / as_dict (one or many attrs, "
+                    "also inside oneshot) / twice / re-fetched from process_iter(); 15 clause-directed families "
+                    "(PRNG from VERIF_SEED), a corpus of clause witnesses, and exhaustive sweeps of the name() rule "
+                    "around the 15-byte boundary, of the branches of exe(), and of modes x calls x objects; "
+                    "non-trivial = at least one step whose outcome is not the default world's; distinct = distinct step lists")
         cases = corpus_cases()
-        n = ctx.n(2200, 80000)
+        n = ctx.n(2000, 80000)
         for i in range(n):
-            cases.append(gen_case(ctx.rng, FAMILIES[i % len(FAMILIES)], impl))
+            c = gen_case(ctx.rng, FAMILIES[i % len(FAMILIES)], impl)
+            cases.append(decorate(ctx.rng, c) if i % 5 else c)
         n_rand = len(cases)
         exh = exhaustive_name_cases()
+        for k, c in enumerate(exh):        # the sweep itself is mode-independent: spread the modes over it
+            c["obj"] = OBJS[k % len(OBJS)]
+            set_mode(ctx.rng, c, c["steps"][0], MODES[(k // len(OBJS)) % len(MODES)])
+        exh_exe = exhaustive_exe_cases()
+        exh_mode = exhaustive_mode_cases()
         cases.extend(exh)
+        cases.extend(exh_exe)
+        cases.extend(exh_mode)
         total_lines = 0
         CH = 3000
         silent = 0
@@ -952,20 +1501,28 @@ def correspond(ctx, res):
                 for f in fs:
                     res.count("feature:" + f)
                 res.count("steps", len(rows))
-                for im, mo, sp in rows:
+                res.count("obj:" + case.get("obj", "ctor"))
+                for st in case["steps"]:
+                    res.count("mode:" + st.get("mode", "plain"))
+                    res.count("call:" + st["call"])
+                for im, mo, sp, _ in rows:
                     res.count("outcome:" + (im.get("exc") or im.get("kind")))
                     if sp is None:
                         silent += 1
-                nontrivial = bool(fs - {"exe", "link:plain", "name:len<15", "cmdline:single-arg"})
+                nontrivial = bool(fs - {"exe", "link:plain", "name:len<15", "cmdline:single-arg", "mode"})
                 idx = a + j
                 res.case(case_json(case), nontrivial=nontrivial,
-                         sample={"case": case_json(case), "impl": [r[0] for r in rows]} if idx in (0, 3, 20, 21, 27, 30) else None)
+                         sample={"case": case_json(case), "impl": [r[0] for r in rows]} if idx in (0, 3, 20, 21, 27, 30, 41, 47) else None)
                 compare(ctx, case, rows, res)
         res.count("steps-where-spec-is-silent", silent)
         res.exhaustive = ("name(): all %d combinations of comm length 13..16 x {ascii, multi-byte cut mid-character, mixed, "
                           "invalid UTF-8} x {equal, longer, differs in last byte, shorter, unrelated} x {bare, absolute, "
-                          "trailing slash} x {argv, title, empty, zombie, cmdline denied}; the random families are samples"
-                          % len(exh))
+                          "trailing slash} x {argv, title, empty, zombie, cmdline denied} (modes and object sources spread "
+                          "over them); exe(): all %d combinations of link {ENOENT, ESRCH, EACCES, '', path, path (deleted)} x "
+                          "cmdline {abs exec, abs non-exec, abs dir, abs absent, relative, title, empty, EACCES, ESRCH, ENOENT} "
+                          "x {live, zombie}, called twice and once more after the link became readable; modes: all %d "
+                          "combinations of 6 worlds x 7 calls x 10 modes x 3 object sources; the random families are samples"
+                          % (len(exh), len(exh_exe), len(exh_mode)))
         res.extra["driver_lines"] = total_lines
         res.extra["random_cases"] = n_rand
     finally:
@@ -984,9 +1541,9 @@ def _violates(ctx, impl, case, drv):
     if not case["steps"]:
         return None
     results, _ = run_cases(ctx, impl, [case], drv)
-    for i, (im, mo, sp) in enumerate(results[0][1]):
+    for (im, mo, sp, si) in results[0][1]:
         if sp is not None and im != sp:
-            return i
+            return max(si, 0)
     return None
 
 
@@ -994,13 +1551,26 @@ def _simplify_candidates(case):
     """smaller variants of a case (steps share world objects in most families: rebuild them separately)"""
     steps = case["steps"]
     dflt = default_world()
+    if case.get("obj", "ctor") != "ctor" and not any(s.get("mode") == "reiter" for s in steps):
+        yield dict(case, obj="ctor")
     for i, s in enumerate(steps):
+        if s.get("mode", "plain") != "plain":
+            s2 = {"call": s["call"], "w": s["w"]}
+            yield dict(case, steps=steps[:i] + [s2] + steps[i + 1:])
+        if "w0" in s and len(s["warm"]) > 1:
+            for k in range(len(s["warm"])):
+                yield dict(case, steps=steps[:i] + [dict(s, warm=s["warm"][:k] + s["warm"][k + 1:])] + steps[i + 1:])
         w = s["w"]
-        for key in ("cmdline", "environ", "exe", "cwd", "comm", "fs", "zombie", "dir"):
+        for key in ("cmdline", "environ", "exe", "cwd", "comm", "fs", "zombie", "dir", "uid", "tty"):
             if w[key] != dflt[key]:
                 w2 = dict(w)
                 w2[key] = dflt[key]
-                yield {"family": case["family"], "steps": steps[:i] + [{"call": s["call"], "w": w2}] + steps[i + 1:]}
+                yield dict(case, steps=steps[:i] + [dict(s, w=w2)] + steps[i + 1:])
+        if "w0" in s:
+            w0 = s["w0"]
+            for key in ("cmdline", "environ", "exe", "cwd", "comm", "zombie", "uid", "tty"):
+                if w0[key] != w[key]:
+                    yield dict(case, steps=steps[:i] + [dict(s, w0=dict(w0, **{key: w[key]}))] + steps[i + 1:])
 
 
 def _bytes_fields(w):
@@ -1025,8 +1595,8 @@ def shrink(ctx, d):
 
         if not fails(case):
             return d
-        steps = ddmin(case["steps"], lambda ss: fails({"family": case["family"], "steps": ss}), max_tests=20)
-        case = {"family": case["family"], "steps": steps}
+        steps = ddmin(case["steps"], lambda ss: fails(dict(case, steps=ss)), max_tests=20)
+        case = dict(case, steps=steps)
         changed = True
         while changed and budget[0] > 0:
             changed = False
@@ -1044,20 +1614,20 @@ def shrink(ctx, d):
             def f(bs, mk=mk):
                 w2 = dict(case["steps"][-1]["w"])
                 w2.update(mk(bytes(bs)))
-                return fails({"family": case["family"], "steps": case["steps"][:-1] + [{"call": last["call"], "w": w2}]})
+                return fails(dict(case, steps=case["steps"][:-1] + [dict(last, w=w2)]))
             small = bytes(ddmin(list(val), f, max_tests=25))
             if small != val:
                 w2 = dict(case["steps"][-1]["w"])
                 w2.update(mk(small))
-                cand = {"family": case["family"], "steps": case["steps"][:-1] + [{"call": last["call"], "w": w2}]}
+                cand = dict(case, steps=case["steps"][:-1] + [dict(last, w=w2)])
                 if fails(cand):
                     case = cand
                     last = case["steps"][-1]
         results, _ = run_cases(ctx, impl, [case], drv)
-        for i, (im, mo, sp) in enumerate(results[0][1]):
+        for (im, mo, sp, si) in results[0][1]:
             if sp is not None and im != sp:
                 cj = case_json(case)
-                return dict(d, input={"family": "shrunk", "steps": cj["steps"][:i + 1]}, impl=im, model=mo, spec=sp)
+                return dict(d, input=dict(cj, family="shrunk", steps=cj["steps"][:max(si, 0) + 1]), impl=im, model=mo, spec=sp)
         return d
     finally:
         drv.close()
